@@ -59,6 +59,8 @@ def cases(chk):
     ] + [{"variant": "IK", "edge": True, "passive": True, "cuts": ["after-handshake"], "corrupt": False, "immediate": 1, "down": 2, "up": 1, "chunk": 65536, "seed": 50, "big": (1 << 20) + 1}]
     for c in corpus:
         yield "login", c
+    for v in VARIANTS:
+        yield "login", {"variant": v, "edge": False, "passive": False, "cuts": [], "corrupt": False, "immediate": 0, "down": 1, "up": 1, "chunk": 0, "seed": 900 + len(v), "login": 1}
     # frames written together with the server's reply of a resumed login: the race between the end of the handshake and the network thread
     for i in range(chk.scale(40, 600)):
         yield "login", {"variant": "IK", "edge": False, "passive": r.random() < 0.5, "cuts": [], "corrupt": False, "immediate": r.randint(1, 4),
@@ -68,7 +70,8 @@ def cases(chk):
         yield "login", {"variant": v, "edge": r.random() < 0.3, "passive": r.random() < 0.4,
                         "cuts": [r.choice(["before-answer", "mid-answer", "after-handshake", "closed-in-read", "bad-answer"]) for _i in range(r.choice([0, 0, 1, 1, 2]))],
                         "corrupt": r.random() < 0.15, "immediate": r.choice([0, 0, 1, 2, 4]) if v == "IK" else 0,
-                        "down": r.randint(0, 5), "up": r.randint(0, 5), "chunk": r.choice([0, 1, 2, 3, 7, 16, 64]), "seed": r.randrange(1 << 30), "vary": int(r.random() < 0.5)}
+                        "down": r.randint(0, 5), "up": r.randint(0, 5), "chunk": r.choice([0, 1, 2, 3, 7, 16, 64]), "seed": r.randrange(1 << 30), "vary": int(r.random() < 0.5),
+                        "login": int(r.random() < 0.4)}
     # several logins on one stack with the settings changed in between: each login presents the settings in force THEN
     for i, cuts in enumerate((["after-handshake"], ["after-handshake", "after-handshake"], ["before-answer", "after-handshake"], ["closed-in-read"], ["bad-answer", "after-handshake"])):
         for passive in (False, True):
@@ -147,7 +150,10 @@ class World(object):
             rs = PublicKey(bytes(self.old_static.public.data))
         self.name = "c04-" + uuid.uuid4().hex
         self.config = Config(phone="4915177700%02d" % (case["seed"] % 100), cc=49, client_static_keypair=KeyPair.generate(), server_static_public=rs,
-                             pushname="pn-%d" % (case["seed"] % 1000), edge_routing_info=b"\x08\x02\x08\x05" if case["edge"] else None)
+                             pushname="pn-%d" % (case["seed"] % 1000), edge_routing_info=b"\x08\x02\x08\x05" if case["edge"] else None,
+                             # the account name the server assigned at registration may differ from the phone number typed in (Mexico, Argentina,
+                             # Brazil: an extra digit): it is the configured account
+                             login=("52155177%05d" % (case["seed"] % 100000)) if case.get("login") else None)
         self.stack.setProfile(YowProfile(self.name, self.config))
         self.noise = self.stack.getLayer(2)
         self.seg = self.stack.getLayer(1)
@@ -351,7 +357,7 @@ def run_case(chk, stream, case):
     if srv.variant != expected_variant:
         fails.append(oracle("C04:wrong-handshake-variant", "%s: the server saw a %s handshake" % (ctx, srv.variant)))
     p = srv.client_payload
-    want_user = int(w.config.phone)
+    want_user = int(w.config.login or w.config.phone)
     want_passive = st.get("passive_now", bool(case["passive"]))
     if p is None or p.username != want_user or bool(p.passive) != bool(want_passive) or p.push_name != w.config.pushname or not p.user_agent.device:
         fails.append(oracle("C04:wrong-client-payload", "%s: the server was presented username=%s passive=%s pushname=%r at login #%d; configured then: passive=%s pushname=%r"
